@@ -58,6 +58,14 @@ func c12History(w *gen.World, rng *rand.Rand, n int) []c02Query {
 			q.EDNS, q.Size = true, 512
 		}
 		out = append(out, q)
+		// the same question again over TCP and with a large buffer (an entry populated by a reply that was truncated
+		// for its client must not be what later clients with room get)
+		if rng.Intn(6) == 0 {
+			a, b2 := q, q
+			a.TCP = true
+			b2.EDNS, b2.Size, b2.TCP = true, 4096, false
+			out = append(out, a, b2)
+		}
 		// immediate repeats and near repeats: same key again, from another client / with other EDNS
 		for rng.Intn(2) == 0 {
 			q2 := c02FromClient(name, t, clients[rng.Intn(len(clients))], rng)
